@@ -62,6 +62,7 @@ type Addr struct {
 	glob    *ssa.Global
 	path    []pathStep
 	curT    types.Type
+	nilWhen *Term // non-nil: the pointer is nil exactly when this holds (merge of an address with nil)
 }
 
 type mapIter struct {
@@ -139,6 +140,8 @@ type Exec struct {
 	selectReturn     int // >= 0: keep only this return point of the target call
 	numReturns       int
 	oblAtReturn      int
+	entryState       *State
+	oldCache         map[string]Value
 }
 
 type modEntry struct {
@@ -543,6 +546,15 @@ func (x *Exec) mergeVals(c *Term, a, b Value) Value {
 		bv, ok := b.(*Term)
 		if !ok {
 			if ba, ok := b.(*Addr); ok {
+				if av.kind == kLeaf && av.op == "0" {
+					m := *ba
+					nw := c
+					if ba.nilWhen != nil {
+						nw = ts.Or(c, ba.nilWhen)
+					}
+					m.nilWhen = nw
+					return &m
+				}
 				return ts.Ite(c, av, x.addrToRef(ba))
 			}
 			unsup("merge term with %T", b)
@@ -563,6 +575,16 @@ func (x *Exec) mergeVals(c *Term, a, b Value) Value {
 			}
 			return ts.Ite(c, x.addrToRef(av), x.addrToRef(bv))
 		case *Term:
+			if bv.kind == kLeaf && bv.op == "0" {
+				// address or nil
+				m := *av
+				nw := ts.Not(c)
+				if av.nilWhen != nil {
+					nw = ts.Or(nw, av.nilWhen)
+				}
+				m.nilWhen = nw
+				return &m
+			}
 			return ts.Ite(c, x.addrToRef(av), bv)
 		}
 	case *FuncRef:
@@ -603,6 +625,16 @@ func (x *Exec) mergeAddr(c *Term, a, b *Addr) *Addr {
 	if a.arr != nil {
 		m.arr = ts.Ite(c, a.arr, b.arr)
 		m.idx = ts.Ite(c, a.idx, b.idx)
+	}
+	if a.nilWhen != nil || b.nilWhen != nil {
+		an, bn := ts.False(), ts.False()
+		if a.nilWhen != nil {
+			an = a.nilWhen
+		}
+		if b.nilWhen != nil {
+			bn = b.nilWhen
+		}
+		m.nilWhen = ts.Ite(c, an, bn)
 	}
 	m.path = make([]pathStep, len(a.path))
 	for i := range a.path {
@@ -709,6 +741,9 @@ func (x *Exec) callFunction(fn *ssa.Function, args []Value, bindings []Value, st
 	}()
 
 	fr := &Frame{fn: fn, vals: map[ssa.Value]Value{}}
+	if fn == x.targetFn && x.entryState == nil {
+		x.entryState = st.clone()
+	}
 	for i, p := range fn.Params {
 		fr.vals[p] = args[i]
 	}
@@ -716,6 +751,34 @@ func (x *Exec) callFunction(fn *ssa.Function, args []Value, bindings []Value, st
 		fr.vals[fv] = bindings[i]
 	}
 	fr.loops = analyzeLoops(fn)
+	if fn == x.targetFn && x.target != nil && x.oldCache == nil {
+		// old(e) of loop clauses: evaluated now, in the entry state; ghost
+		// snapshots they allocate become part of the state the body starts from
+		x.oldCache = map[string]Value{}
+		for _, ls := range x.target.Loops {
+			for _, hn := range ls.oldFns {
+				var hargs []Value
+				for _, pn := range ls.paramsOf[hn] {
+					var v Value
+					for _, p := range fn.Params {
+						if p.Name() == pn {
+							v = fr.vals[p]
+						}
+					}
+					if v == nil {
+						unsup("old(): %s is not a parameter", pn)
+					}
+					hargs = append(hargs, v)
+				}
+				res, nst := x.callFunction(ls.oldSSA[hn], hargs, nil, st)
+				if nst == nil {
+					unsup("old() helper does not return")
+				}
+				st.heap, st.alloc = nst.heap, nst.alloc
+				x.oldCache[hn] = res[0]
+			}
+		}
+	}
 
 	order := fr.loops.order
 	out := map[*ssa.BasicBlock]*State{}                     // state at end of block
